@@ -94,6 +94,16 @@ def sweep(ctx, n):
                     ax = [magpy.magnet.CylinderSegment(dimension=(r1, r2, zc, 0, 360), polarization=pol, position=(0, 0, -h / 2 + zc / 2)),
                           magpy.magnet.CylinderSegment(dimension=(r1, r2, h - zc, 0, 360), polarization=pol, position=(0, 0, h / 2 - (h - zc) / 2))]
                     err = max(err, rel(get(magpy.Collection(*ax), obs[:3]), ref[:3]))
+                # the ring cut at round angles written from -360 or up to +360 degrees (a face at exactly -360 / +360), observers exactly
+                # on the negative x axis and on the y axes (diametrically opposite to / at right angles with that face), inside and outside
+                for lo_ in (-360.0, 0.0):
+                    mids = sorted(float(v_) for v_ in np.round(nps.uniform(lo_ + 20, lo_ + 340, rng.choice([1, 2, 3])) / 5) * 5 + 1.0)
+                    cuts2 = [lo_] + mids + [lo_ + 360.0]
+                    segs2 = [magpy.magnet.CylinderSegment(dimension=(r1, r2, h, a_, b_), polarization=pol) for a_, b_ in zip(cuts2, cuts2[1:])]
+                    rho = np.array([0.5 * (r1 + r2), 1.7 * r2, 0.5 * (r1 + r2), 2.4 * r2])
+                    zz_ = np.array([0.2 * h, 0.3 * h, 1.4 * h, -0.8 * h])
+                    obs2 = np.concatenate([np.stack([-rho, 0 * rho, zz_], axis=1), np.stack([0 * rho, rho, zz_], axis=1), np.stack([0 * rho, -rho, zz_], axis=1), [[1.9 * r2, 0.0, 0.4 * h]]])
+                    err = max(err, rel(get(magpy.Collection(*segs2), obs2), get(whole, obs2)))
                 # the same parts in ONE joint call (list, per-source output), proper segments listed before and after a full ring:
                 # every part in the batch equals the part evaluated alone
                 zc = nps.uniform(0.3, 0.7) * h
